@@ -41,29 +41,29 @@ func stdL2(prop string, quickRandom, thoroughRandom int) func(r *Run) {
 func init() {
 	register(&Property{ID: "C02", Level: "exploration",
 		Rule:  "cases = curated corpus (naming case k8 with json tags, overrides by path and by Message.Field, lower_snake names; scalar / message / embed / oneof matrices) + seeded random descriptors with random json tags and name overrides; structure: the run-time tfsdk.Schema is walked recursively and compared with the reference model (name set per level, type per the documented table, nesting mode; counter schema-attributes-judged); behaviour: every leaf field of every reachable message (through nested objects, first list element, map value, oneof branches, embeds; counter fields-probed) is probed with a distinctive non-zero value: CopyTo(probe) and CopyTo(base) must differ at exactly the attribute path the model assigns and carry the value in the documented Terraform type, and writing that attribute value into the base object must change exactly that field on CopyFrom; distinct = distinct probed field paths",
-		Check: stdL2("C02", 10, 150)})
+		Check: stdL2("C02", 16, 150)})
 	register(&Property{ID: "C03", Level: "exploration",
 		Rule:  latticeRule + "one evaluation = one CopyTo into an empty schema-typed object followed by the conformance walk (presence, value type, schema type, no unknown, recursively) and the framework acceptance checks (ToTerraformValue type, ValueFromTerraform, tfsdk.State.Set)",
-		Check: stdL2("C03", 8, 150)})
+		Check: stdL2("C03", 14, 150)})
 	register(&Property{ID: "C04", Level: "exploration",
 		Rule:  latticeRule + "one evaluation = CopyTo into an empty object, CopyFrom into a fresh struct, comparison of both structs in the documented normal form",
-		Check: stdL2("C04", 8, 150)})
+		Check: stdL2("C04", 14, 150)})
 	const planRule = "cases = curated corpus + seeded random descriptors; per selected type N plan objects: a fully known value of the schema's Terraform type (values inside the range of the Go fields, known zero values included, at most one active branch per oneof group) decoded by the schema's own attribute type as req.Plan.Get does, then a pseudo-random null/unknown mask (modes mixed / mostly known / mostly absent / zero heavy) applied on the attr.Value tree; distinct = distinct (case, type, null/unknown/known shape of the object) triples; "
 	register(&Property{ID: "C05", Level: "exploration",
 		Rule:  planRule + "one evaluation = one CopyFrom: each object is decoded in a clean variant (as the framework would deliver it) and a hand-built variant that keeps the payload under the Null/Unknown flags, into a fresh target and into a target pre-filled with a dense lattice value; oracles: no panic, no error diagnostic, every null/unknown position left zero/nil/empty (counter absent-positions-judged), oneof holder nil when all branches absent, result independent of the payload, root-level excluded fields unchanged",
-		Check: stdL2("C05", 8, 150)})
+		Check: stdL2("C05", 14, 150)})
 	register(&Property{ID: "C07", Level: "exploration",
 		Rule:  planRule + "CopyFrom: objects with at most one known branch per group (others null or typed unknown), decoded into a fresh target and two pre-filled targets holding other branches; the holder must be exactly the set branch with the model's value, or nil; CopyTo: lattice struct values into an empty object, null-ness of every branch attribute of every group at every level (nested objects, list and map elements); distinct = distinct (level path, group, active branch / none / zero payload, prior) combinations (counters from-groups-judged, to-groups-judged)",
-		Check: stdL2("C07", 8, 150)})
+		Check: stdL2("C07", 14, 150)})
 	register(&Property{ID: "C08", Level: "exploration",
 		Rule:  planRule + "one evaluation = history plan -> CopyFrom(fresh struct) -> CopyTo(into a deep copy of the same plan object) -> CopyFrom; oracles: no unknown below field-backed attributes, every known non-element attribute unchanged (value / null-ness / length / key set; counter known-attributes-judged), second decode equals the first in normal form",
-		Check: stdL2("C08", 8, 150)})
+		Check: stdL2("C08", 14, 150)})
 	register(&Property{ID: "C09", Level: "exploration",
 		Rule:  "cases = curated corpus + seeded random descriptors; per selected type N histories CopyTo(s0); CopyTo(s1); ... on one object starting from the empty schema-typed object (2 steps quick, 5 thorough), sources alternating dense / mixed / sparse / zero / boundary lattice modes so that every list grows, shrinks, empties and becomes nil and maps gain and lose keys; after every step the object is judged against the last source and the object before the step (counter refresh-attributes-judged) and the step is repeated to check idempotence; distinct = distinct (case, type, sequence of shape signatures)",
-		Check: stdL2("C09", 8, 150)})
+		Check: stdL2("C09", 14, 150)})
 	register(&Property{ID: "C06", Level: "fault_enumeration",
 		Rule:  "cases = curated corpus + seeded random descriptors; CopyFrom: per selected type B conforming base objects (fully known plan / masked plan); every fault position reachable through known parents is enumerated (attributes at every depth, list elements, map values; counter from-fault-positions) and every single fault at it is applied one at a time (delete, wrong Go type, nil interface, nil Attrs, nil Elems, wrong-typed / nil element; counter from-single-faults), then random sets of 2-6 non-nested faults (counter from-fault-sets); oracle: no panic, one error diagnostic per visited fault naming the model's field path, total count equal to the number of visited faults, every field outside the faulted attributes equal to the unfaulted decode. CopyTo: for a dense source value every attribute type of every object-type level the source reaches (top level, nested objects, list and map element types) is removed or replaced one at a time (counter to-type-faults); oracle: no panic, one missing-attribute diagnostic per visit naming the field, all other attributes identical to the unfaulted run; distinct = distinct (fault kind, field path) pairs",
-		Check: stdL2("C06", 6, 120)})
+		Check: stdL2("C06", 10, 120)})
 	register(&Property{ID: "C19", Level: "exploration",
 		Rule: "cases = scalar / temporal / cast matrices of the curated corpus (k2, k3, k4, k1) + seeded random descriptors; for every scalar-like root field shape (singular, repeated element, map value, oneof branch, cast type; counter shapes) the full boundary set of its Go type (counter boundary-values: signed / unsigned 32 and 64 bit extremes, 2^53 neighbours, float32 / float64 subnormal, largest, rounding neighbours, +-0, +-Inf for double, empty / NUL / non-UTF-8 / 10 kB strings, all 256 byte values, enum numbers inside and outside the declared range, time instants with nanoseconds in +-14 h zones from year 1 to 9999, extreme durations) plus N full-range random values is placed into the field (two distinct values for lists and maps) and must survive CopyTo into an empty object followed by CopyFrom exactly (floats: bit equality up to the sign of zero); distinct = distinct (field, value) pairs",
 		Check: func(r *Run) {
@@ -106,7 +106,7 @@ func init() {
 		}})
 	register(&Property{ID: "C20", Level: "exploration",
 		Rule:  latticeRule + "one evaluation = one CopyTo into an empty object followed by the null-ness walk over every non-element attribute (counter judged-attributes)",
-		Check: stdL2("C20", 8, 150)})
+		Check: stdL2("C20", 14, 150)})
 }
 
 // hasCustom reports whether an entry has a custom-type field below its roots.
